@@ -374,6 +374,7 @@ func init() {
 			out.Add("lint", Case{Coq: fmt.Sprintf("(%s, %s, %s, %s, %s)", cqBytes(c.Subject.CommonName), cqBool(util.CommonNameIsIP(c)), cqBytesList(c.DNSNames), instantZ(c.NotBefore), cqBool(isErr)),
 				Tag: fmt.Sprint(isErr), Desc: map[string]interface{}{"cn": c.Subject.CommonName, "dns": c.DNSNames, "notBefore": c.NotBefore.String(), "status": int(r.Status), "der": hexs(der)}})
 		}
+		genRegen(out, rng)
 		return out.Emit()
 	}
 }
